@@ -107,6 +107,13 @@ pub fn run(ctx: &RunCtx, caps: bool) -> Outcome {
     };
     let cases = if quick { 200_000 } else { 3_000_000 };
     stage_random(ctx, &mut o, &p, "random core", &RandCfg::core(), &rtexts, cases, &|_| true);
+    if !quick && o.violations.is_empty() {
+        // the target compares all groups; for C01 only span / existence failures are violations of C01
+        super::api::fuzz_stage(ctx, &mut o, &prop(true), "fuzz_diff", crate::fuzzdec::run_diff);
+        if !caps {
+            o.violations.retain(|v| v.fail.kind != "caps" && v.fail.kind != "caps-len");
+        }
+    }
     o
 }
 
